@@ -161,7 +161,8 @@ func TestProxyMapOverReloads(t *testing.T) {
 			n := rapid.IntRange(1, 3).Draw(t, "filters")
 			seen := map[string]bool{}
 			for i := 0; i < n; i++ {
-				s := spec{Name: fmt.Sprintf("f%d", i), URL: rapid.SampledFrom(pool).Draw(t, "url"), Methods: genMethods().Draw(t, "methods")}
+				s := spec{Name: fmt.Sprintf("f%d", i), URL: rapid.SampledFrom(pool).Draw(t, "url"), Methods: genMethods().Draw(t, "methods"),
+					Body: rapid.IntRange(0, 2).Draw(t, "needs-body") == 0}
 				key := s.URL + " " + strings.Join(s.Methods, ",")
 				if seen[key] || strings.ContainsAny(s.URL, "\"\\") {
 					continue
@@ -176,6 +177,16 @@ func TestProxyMapOverReloads(t *testing.T) {
 			st.Overlap = !st.Soon && rapid.IntRange(0, 2).Draw(t, "overlap") == 0
 			return st
 		}), 2, 4).Draw(t, "reloads")
+		// an edit of the flows that leaves their filters alone: the same filters as the reload before, each with the
+		// other body requirement (a processor was added to / removed from the flow)
+		for i := 1; i < len(steps); i++ {
+			if rapid.IntRange(0, 3).Draw(t, "same-filters-other-processors") == 0 {
+				steps[i].Specs = append([]spec(nil), steps[i-1].Specs...)
+				for j := range steps[i].Specs {
+					steps[i].Specs[j].Body = !steps[i].Specs[j].Body
+				}
+			}
+		}
 		// a configuration change that is taken back: the reload that arrives during the deferred un-registration
 		// of reload i brings the flows of reload i-1 again (half of the time)
 		for i := 1; i+1 < len(steps); i++ {
